@@ -155,22 +155,33 @@ def struct_job(a):
             got = {}
             @dec
             def probe(*a_, **k_): got['a'], got['k'] = a_, k_; return 0
-            rec = dict(tol=tol, deep=deep, args=repr(args)[:200], kw=repr(kw)[:200], has_range='range(' in repr((args, kw)))
-            try:
-                probe(*args, **kw)
-                impl = ('ok', canon(list(got['a'])), canon(got['k']))
-            except Exception as e:
-                impl = ('exc', type(e).__name__)
-            # oracle from the property text
-            try:
-                if tol is None: oa, ok_ = list(args), dict(kw)
-                else: oa, ok_ = [oracle(x, tol, deep) for x in args], dict((n, oracle(x, tol, deep)) for n, x in kw.items())
-                orc = ('ok', canon(oa), canon(ok_))
-            except OverflowError:
-                orc = ('exc', 'OverflowError')
-            line = dict(op='round', deep=deep, tol=tol, args=[pv_enc(I, x) for x in args], kwds=[[I(n), pv_enc(I, x)] for n, x in kw.items()])
-            nontrivial = any(isinstance(x, (list, tuple, set, frozenset, dict)) for x in list(args) + list(kw.values())) and tol is not None
-            out.append(dict(rec=rec, impl=impl, orc=orc, line=line, objs=I, nontrivial=nontrivial))
+            def once(I, again=False):
+                rec = dict(tol=tol, deep=deep, args=repr(args)[:200], kw=repr(kw)[:200], has_range='range(' in repr((args, kw)), again=again)
+                try:
+                    probe(*args, **kw)
+                    impl = ('ok', canon(list(got['a'])), canon(got['k']))
+                except Exception as e:
+                    impl = ('exc', type(e).__name__)
+                # oracle from the property text
+                try:
+                    if tol is None: oa, ok_ = list(args), dict(kw)
+                    else: oa, ok_ = [oracle(x, tol, deep) for x in args], dict((n, oracle(x, tol, deep)) for n, x in kw.items())
+                    orc = ('ok', canon(oa), canon(ok_))
+                except OverflowError:
+                    orc = ('exc', 'OverflowError')
+                line = dict(op='round', deep=deep, tol=tol, args=[pv_enc(I, x) for x in args], kwds=[[I(n), pv_enc(I, x)] for n, x in kw.items()])
+                nontrivial = any(isinstance(x, (list, tuple, set, frozenset, dict)) for x in list(args) + list(kw.values())) and tol is not None
+                out.append(dict(rec=rec, impl=impl, orc=orc, line=line, objs=I, nontrivial=nontrivial))
+            once(I)
+            # the same objects again, changed in place in between (the rounding must look at what they hold now)
+            mutable = [x for x in list(args) + list(kw.values()) if isinstance(x, (list, dict, set))]
+            if mutable and ci % 2 == 0:
+                for x in mutable:
+                    nv = r.choice([5.123456, 0.98765, -2.55555])
+                    if isinstance(x, list): x[:1] = [nv]
+                    elif isinstance(x, dict): x[next(iter(x), 'k0')] = nv
+                    else: x.add(nv)
+                once(VI(), again=True)
         except Exception:
             out.append(dict(err=traceback.format_exc()[-800:]))
     # decode model answers inside the worker (objects do not travel)
